@@ -547,6 +547,7 @@ func TestC03(t *testing.T) {
 		scs = append(scs, scenario{class: fmt.Sprintf("random/g%v/t%d/a%d", gate, trust, maxActs/8*8), tail: 1 + rng.U64()%40, nInit: 1 + rng.Intn(4),
 			nChain: 60 + rng.Intn(200), batch: []int{1, 4, 64}[rng.Intn(3)], gate: gate, trust: trust, bifGap: rng.Chance(20), script: randomScript(maxActs)})
 	}
+	corpusLateAdd(t, w) // always first: the check-then-act window of setLocalHead on the real code
 	for _, sc := range scs {
 		runScenario(t, w, sc, rng)
 	}
